@@ -110,7 +110,15 @@ class C10(Check):
         a['calls'] = hist + [['reset']] + rp + ([['pastify']] if c.get('reset_before_pastify') else []) + updates(c['f'], c['cols'], c['times'], h, n, om) + [['counter']]
         b = dict(base)
         b['calls'] = rp + updates(c['f'], c['cols'], c['times'], h, n, om) + [['counter']]
-        return [a, b]
+        if c.get('reset_before_pastify'):
+            return [a, b]
+        # what get_value() returns between the reset and the next update: as for a fresh monitor (the stored inputs and the buffered outputs are gone)
+        probes = self.probes(c)
+        return [a, b, dict(a, calls=hist + [['reset']] + probes), dict(b, calls=probes)]
+
+    def probes(self, c):
+        names = ['out'] + (['sub1'] if c.get('sub') and fml.children(c['f']) else []) + fml.VARS[:c['nv']]
+        return [['get_value', nm] for nm in names]
 
     def model_lines(self, c):
         if c.get('past'):
@@ -131,9 +139,17 @@ class C10(Check):
             return 'model-error', mlines
         if m2['EXACT'] != ['1']:
             return 'dropped', None
-        a, b = ires
+        a, b = ires[:2]
         h, n = c['h'], c['n']
         det = {'history': h, 'continuation': n - h}
+        if len(ires) == 4 and ires[2]['setup']['status'] == 'ok' and ires[3]['setup']['status'] == 'ok':
+            np_ = len(self.probes(c))
+            oc = lambda r: [r['status'], r.get('value') if r['status'] == 'ok' else r.get('kind')]
+            if all(r['status'] == 'ok' for r in ires[2]['calls'][:-np_]):
+                got, exp = [oc(r) for r in ires[2]['calls'][-np_:]], [oc(r) for r in ires[3]['calls']]
+                if got != exp:
+                    return 'violation', dict(det, shape='get_value-after-reset', names=[p_[1] for p_ in self.probes(c)],
+                                             expected={'fresh monitor, get_value before the first update': exp}, observed={'get_value after reset()': got})
         for i in (a, b):
             if i['setup']['status'] != 'ok':
                 return 'violation', dict(det, expected='specification parses', observed=i['setup'])
